@@ -103,7 +103,7 @@ func (e *Exec) callOut(ins ssa.Instruction, what string, resT *types.Tuple, st *
 // funcValueCall: call through a function value whose target is unknown.
 func (e *Exec) funcValueCall(ins ssa.Instruction, c *ssa.CallCommon, fv FuncV, args []Value, st *State) Value {
 	name := calleeText(c)
-	if fc := e.C.Funcs["fnparam:"+funcKey(e.fn)+"."+name]; fc != nil {
+	if fc := e.C.lookup("fnparam:" + funcKey(e.fn) + "." + name); fc != nil {
 		fc.Used = true
 		e.ghostAdd(st, "invoked:"+name, 1)
 		return e.contractCall(ins, "fnparam:"+funcKey(e.fn)+"."+name, fc, c.Signature(), args, sigParamNames(c.Signature()), st, nil)
@@ -149,13 +149,19 @@ func calleeText(c *ssa.CallCommon) string {
 
 func (e *Exec) staticCall(ins ssa.Instruction, fn *ssa.Function, args []Value, bindings []Value, st *State) Value {
 	key := funcKey(fn)
+	// a method with a pointer receiver is entered with a non-nil receiver (callees assume it)
+	if fn.Signature.Recv() != nil && len(args) > 0 && isRepoFunc(fn) {
+		if pv, ok := args[0].(PtrV); ok {
+			e.safe("nil", st, Ne(pv.Addr, ConstI(0, Ref)), ins.Pos())
+		}
+	}
 	if v, ok := e.specialCall(ins, key, fn, args, st); ok {
 		return v
 	}
 	resT := fn.Signature.Results()
-	fc := e.C.Funcs[key]
+	fc := e.C.lookup(key)
 	if fc == nil && fn.Origin() != nil {
-		fc = e.C.Funcs[funcKey(fn.Origin())]
+		fc = e.C.lookup(funcKey(fn.Origin()))
 	}
 	pack := func(res []Value) Value {
 		switch len(res) {
@@ -166,7 +172,15 @@ func (e *Exec) staticCall(ins ssa.Instruction, fn *ssa.Function, args []Value, b
 		}
 		return TupleV(res)
 	}
-	if fc != nil && !fc.Inline && !fc.Pure {
+	forceInline := false
+	if rfc := e.root().fc; rfc != nil {
+		for _, pat := range rfc.InlineCalls {
+			if strings.Contains(key, pat) {
+				forceInline = true
+			}
+		}
+	}
+	if fc != nil && !fc.Inline && !fc.Pure && !forceInline {
 		fc.Used = true
 		names := []string{}
 		for _, p := range fn.Params {
@@ -237,7 +251,7 @@ func (e *Exec) inlineCallB(fn *ssa.Function, args []Value, bindings []Value, st 
 	ch := &Exec{P: e.P, C: e.C, fn: fn, ctx: e.ctx, entry: e.entry, vals: map[ssa.Value]Value{}, params: map[string]Value{}, lets: map[string]Value{},
 		parent: e, depth: e.depth + 1, topName: e.topName, counts: e.counts, callOrd: map[string]int{}, specMode: spec || e.specMode,
 		prefix: e.prefix + "in:" + shortKey(funcKey(fn)) + "/"}
-	ch.fc = e.C.Funcs[funcKey(fn)]
+	ch.fc = e.C.lookup(funcKey(fn))
 	if len(args) != len(fn.Params) {
 		e.errorf("inline %s: %d args for %d params", fn, len(args), len(fn.Params))
 	}
